@@ -262,12 +262,21 @@ func (w *c13World) c13Initiator() sdk.AccAddress { return addrN(26) }
 // mode 2: MsgLiquidateExternalKeeper (no vault; the penalty is booked as auction-module fees: the
 //         collector's coins and books must not move at all).
 func (w *c13World) c13V2Liquidation(app, out uint64, collIn int64, mode int) {
+	w.c13V2LiquidationOn(app, out, collIn, mode, false)
+}
+
+// zeroFee: the vault is opened on the extended pair without draw-down fee (no vault fee precedes the penalty)
+func (w *c13World) c13V2LiquidationOn(app, out uint64, collIn int64, mode int, zeroFee bool) {
 	a := w.a
 	if mode == 2 {
 		w.c13V2External(app, out, collIn)
 		return
 	}
 	ep := w.ep[[2]uint64{app, out}]
+	if zeroFee {
+		ep = c13Epz[[2]uint64{app, out}]
+		w.tr.p("note v2pen:zero_fee_pair")
+	}
 	in := sdk.NewInt(collIn)
 	class := w.c13Vault("create", app, out, vaulttypes.NewMsgCreateRequest(w.vuser, app, ep, in, in)) // price 2: CR 200 %
 	w.c13Obs()
@@ -383,8 +392,8 @@ func (w *c13World) c13AuctionOp(r *rng, app, asset uint64) {
 			w.c13V1Debt(app, asset)
 		}
 	default:
-		// automatic / internal keeper (twice as often: the penalty split) / external
-		w.c13V2Liquidation(app, asset, coll, int(r.pickI(0, 1, 1, 2)))
+		// automatic / internal keeper (twice as often: the penalty split) / external; on the pair with or without draw-down fee
+		w.c13V2LiquidationOn(app, asset, coll, int(r.pickI(0, 1, 1, 2)), r.chance(45))
 	}
 }
 
@@ -474,4 +483,65 @@ func (w *c13World) c13DirectedV2English(surplus bool) {
 	w.c13Obs()
 	w.c13V2Close()
 	w.c13Obs()
+}
+
+// coins arrive at the collector from the generation-1 auction module account and are booked with
+// SetNetFeeCollectedData ALONE - the collector half of the generation-1 dutch auction close (dutch.go:410-427)
+func (w *c13World) c13PenaltyIn(app, asset uint64, amt sdk.Int) {
+	d := w.denom[asset]
+	res := w.c13Apply(func(ctx sdk.Context) error {
+		if amt.IsPositive() {
+			coin := sdk.NewCoins(sdk.NewCoin(d, amt))
+			if err := w.a.BankKeeper.MintCoins(ctx, auctiontypes.ModuleName, coin); err != nil {
+				return err
+			}
+			if err := w.a.BankKeeper.SendCoinsFromModuleToModule(ctx, auctiontypes.ModuleName, "collectorV1", coin); err != nil {
+				return err
+			}
+		}
+		return w.a.CollectorKeeper.SetNetFeeCollectedData(ctx, app, asset, amt)
+	})
+	w.tr.p("op v1pen %d %d %s %s", app, asset, amt, res)
+}
+
+// 2-5 inflows of ONE (app, asset) in a random order, each judged by the per-op delta / flow predicates:
+//   0 a real vault message with a draw-down fee (UpdateCollector), 1 a plain fee inflow (UpdateCollector),
+//   2 a penalty-shaped inflow (SetNetFeeCollectedData alone), 3 a generation-2 liquidation on the pair WITHOUT
+//   draw-down fee settled by a full bid (the penalty is the first thing the collector sees of that vault),
+//   4 the same on the pair with draw-down fee, 5 a TriggerEsm hand-back on the pair without draw-down fee (TestC13B)
+func (w *c13World) c13InflowOrders(r *rng) {
+	app := w.apps[r.intn(len(w.apps))]
+	asset := w.assets[1+r.intn(2)]
+	n := 2 + r.intn(4)
+	kinds := []int{0, 1, 2, 3, 4}
+	if w.bmode {
+		kinds = append(kinds, 5)
+	}
+	// a random order without repetition first (every kind can come first), then repetitions
+	for i := len(kinds) - 1; i > 0; i-- {
+		j := r.intn(i + 1)
+		kinds[i], kinds[j] = kinds[j], kinds[i]
+	}
+	for i := 0; i < n; i++ {
+		k := kinds[i%len(kinds)]
+		w.tr.p("note inflow-order:%d:kind%d", i, k)
+		switch k {
+		case 0:
+			in := int64(1+r.intn(900)) * 1000000
+			w.c13Vault("create", app, asset, vaulttypes.NewMsgCreateRequest(w.vuser, app, w.ep[[2]uint64{app, asset}], sdk.NewInt(in), sdk.NewInt(in/2+int64(r.intn(int(in/2))))))
+		case 1:
+			w.c13FeeIn(app, asset, sdk.NewInt(int64(1+r.intn(30))*1000000))
+		case 2:
+			w.c13PenaltyIn(app, asset, sdk.NewInt(int64(r.intn(30))*1000000+int64(r.intn(2))))
+		case 3:
+			w.c13V2LiquidationOn(app, asset, int64(2+r.intn(40))*1000000, int(r.pickI(0, 1)), true)
+		case 4:
+			w.c13V2LiquidationOn(app, asset, int64(2+r.intn(40))*1000000, int(r.pickI(0, 1)), false)
+		default:
+			w.c13TriggerEsmFlowOn(app, asset, int64(2+r.intn(40))*1000000, r.pickI(10, 30, 60), 1, true)
+			w.c13Obs()
+			w.c13SetEsm(app, false)
+		}
+		w.c13Obs()
+	}
 }
